@@ -1370,10 +1370,32 @@ impl PrettyPrint for Statement<'_> {
                     .sum()
                     + m::operator(")")
             }
-            Statement::DefineStruct(StructInfo { name, fields, .. }) => {
+            Statement::DefineStruct(StructInfo {
+                name, fields, kind, ..
+            }) => {
+                let markup_type_parameters = match kind {
+                    StructKind::Definition(type_parameters) if !type_parameters.is_empty() => {
+                        m::operator("<")
+                            + Itertools::intersperse(
+                                type_parameters.iter().map(|(_, name, bound)| {
+                                    m::type_identifier(name.clone())
+                                        + if bound.is_some() {
+                                            m::operator(":") + m::space() + m::type_identifier("Dim")
+                                        } else {
+                                            m::empty()
+                                        }
+                                }),
+                                m::operator(", "),
+                            )
+                            .sum()
+                            + m::operator(">")
+                    }
+                    _ => m::empty(),
+                };
                 m::keyword("struct")
                     + m::space()
                     + m::type_identifier(name.clone())
+                    + markup_type_parameters
                     + m::space()
                     + m::operator("{")
                     + if fields.is_empty() {
